@@ -65,7 +65,8 @@ class PolarsDataframeStateType(StateType):
         )
     
     def copy(self, data):
-        return pl.from_pandas(data.to_pandas().copy())
+        # clone keeps the column types (a round trip through pandas does not)
+        return data.clone()
 
     def data_characteristics(self, data):
         return dict(
